@@ -81,7 +81,7 @@ def free_port():
     return p
 
 
-def scenarios(rng, tmp, tier):
+def scenarios(rng, tmp, tier, pre=0.5):
     """-> list of dicts: name, actions (None = nobody listens), args, timeout, password, want ('zero'|'nonzero'), events"""
     S = []
     cap = os.path.join(tmp, "cap.png")
@@ -148,8 +148,11 @@ def scenarios(rng, tmp, tier):
         S.append(dict(name=f"{vs}: 'key a key b key c': unknown message right after ServerInit",
                       actions=handshake(v) + [("send", b"\x63"), ("silent",)], args=quick, want="nonzero", events=["lostclean", "stop"]))
         # slow (not silent) handshake, then an update that never comes: the timeout counts from the start
-        S.append(dict(name=f"{vs}: 2.5 s before ServerInit, then silence, --timeout 3",
-                      actions=handshake(v)[:-1] + [("sleep", 2.5), handshake(v)[-1], ("silent",)], args=["capture", cap], timeout=3,
+        # (the delay scales with what a vncdo process costs right now, so that the bound T + 1 + 2*startup below still
+        # separates "counted from the start" from "counted from the connection" on a loaded machine)
+        slow = round(min(12.0, 2.0 + 4.0 * pre), 1)
+        S.append(dict(name=f"{vs}: slow handshake ({slow} s before ServerInit), then silence, --timeout {slow + 0.5}",
+                      actions=handshake(v)[:-1] + [("sleep", slow), handshake(v)[-1], ("silent",)], args=["capture", cap], timeout=slow + 0.5,
                       want="nonzero", events=["timeout", "stop"]))
         S.append(dict(name=f"{vs}: silent before the banner, --timeout 2", actions=[("silent",)], args=["key", "a"], timeout=2,
                       want="nonzero", events=["timeout", "stop"]))
@@ -171,7 +174,7 @@ def scenarios(rng, tmp, tier):
                   want="nonzero", events=["completed", "losterror", "stop"], big=True))
     if tier == "quick":
         # a third of the grid per run, always with the special cases
-        keep = [s for i, s in enumerate(S) if s.get("big") or s["actions"] is None or "2.5 s before" in s["name"]
+        keep = [s for i, s in enumerate(S) if s.get("big") or s["actions"] is None or "slow handshake" in s["name"]
                 or "key a key b key c" in s["name"] or (i + rng.randrange(3)) % 3 == 0]
         return keep
     return S
@@ -261,7 +264,10 @@ def run(tier, seed, model):
     rng = random.Random(seed * 7919 + 9)
     tmp = tempfile.mkdtemp(prefix="c09-")
     try:
-        S = scenarios(rng, tmp, tier)
+        # what a vncdo process costs right now, measured before the scenarios are laid out
+        pre = max([run_one(dict(actions=None, args=["key", "a"]))[1] for _ in range(2)] + [0.3])
+        camp.extra["startup_pre_s"] = round(pre, 2)
+        S = scenarios(rng, tmp, tier, pre)
         with ThreadPoolExecutor(max_workers=12) as ex:
             results = list(ex.map(run_one, S))
         ref_bytes = {}
